@@ -33,6 +33,8 @@ pub enum COp {
     Pause(u8),
     /// move the harness clock forward (programs under controlled scheduling drive the clock themselves)
     Advance { ms: u32 },
+    /// fire and forget: put_with_weight whose acknowledgement is dropped at once, never polled
+    Forget { k: u8 },
 }
 
 #[derive(Clone, Debug, PartialEq, Eq, Hash, Serialize, Deserialize)]
@@ -474,6 +476,13 @@ fn worker_thread(shared: Arc<Shared>, thread: usize, ops: Vec<COp>, barrier: Arc
                     shared.shutdown_called.store(true, Ordering::SeqCst);
                     Outcome::Shutdown
                 }
+                COp::Forget { k } => {
+                    let token = token_of(*k, thread, index);
+                    // the acknowledgement is dropped at once, never polled: only its id is kept
+                    let id = cache.put_with_weight(*k as u64, token, base_weight(*k)).ok().map(|ack| ack.verif_id() as usize);
+                    let err = id.is_none();
+                    Outcome::Write { key: *k, token: Some(token), kind: "forgotten-put", err, ack: id.unwrap_or(0), immediate: None, status: None, seen_done: 0, in_place: None, ttl_ns: None, removes_ttl: false, earlier_pending: false, stalled: false }
+                }
                 COp::AwaitAll => Outcome::Nothing,
                 COp::Advance { ms } => {
                     let now = shared.clock.get() + *ms as u64 * 1_000_000;
@@ -514,7 +523,7 @@ fn write_outcome(result: tinylfu_cached::cache::command::command_executor::Comma
         Err(_) => Outcome::Write { key, token, kind, err: true, ack: 0, immediate: None, status: None, seen_done: 0, in_place, ttl_ns: ttl.map(|ttl| ttl.as_nanos()), removes_ttl, earlier_pending: false, stalled: false },
         Ok(ack) => {
             let immediate = poll_once(&ack, &noop_waker()).map(St::from);
-            let pointer = Arc::as_ptr(&ack) as usize;
+            let pointer = ack.verif_id() as usize;
             *new_write = Some((ack, wait));
             Outcome::Write { key, token, kind, err: false, ack: pointer, immediate, status: None, seen_done: 0, in_place, ttl_ns: ttl.map(|ttl| ttl.as_nanos()), removes_ttl, earlier_pending: false, stalled: false }
         }
